@@ -1,4 +1,5 @@
 import BareProofs.C01Lemmas
+import BareModel.HostImpl
 
 /-!
 # C01 — T2: the jump machine on lowered code *is* the ticked structured semantics
@@ -1083,4 +1084,91 @@ theorem execute₀_lowered (B : List SStmt) (h : NoRawB B) (f : Nat) (st : State
       toRes (execTB cfg (callValue₀ cfg) (execIncludes₀ cfg) false B 0 f none base { st with count := 0 }) :=
   run_body_eq cfg base B 0 h f none _
 
+/-! ## non-vacuity: a concrete program (`for` inside `while`, an `if / elif / else` with `continue` and `break`) -/
+
+section NonVacuity
+
+private def u (s : String) : Name := .user s
+
+/-- `n = 0; k = 0; while k < 2: (for x in arrayNew(1,2,3,4): if x == 1: continue elif x == 4: break else: n = n + x); k = k + 1`
+then `return n` -/
+def nvProg : List SStmt := [
+  .expr (some (u "n")) (.number 0),
+  .expr (some (u "k")) (.number 0),
+  .while (.binary .lt (.variable (u "k")) (.number 2)) [
+     .for (u "x") none (.function (u "arrayNew") [.number 1, .number 2, .number 3, .number 4]) [
+        .ite (.binary .eq (.variable (u "x")) (.number 1)) [.cont]
+          (.elif (.binary .eq (.variable (u "x")) (.number 4)) [.brk]
+            (.els [.expr (some (u "n")) (.binary .add (.variable (u "n")) (.variable (u "x")))]))
+     ],
+     .expr (some (u "k")) (.binary .add (.variable (u "k")) (.number 1))
+  ],
+  .ret (some (.variable (u "n")))
+]
+
+theorem nvProg_noRaw : NoRawB nvProg := by simp [nvProg, NoRawB, NoRawS, NoRawE]
+
+def nvSt : State HostImpl.World :=
+  { globals := [(u "arrayNew", .fn (.lib "arrayNew")), (u "arrayLength", .fn (.lib "arrayLength")),
+                (u "arrayGet", .fn (.lib "arrayGet"))],
+    world := {}, count := 0 }
+
+/-- the driver's host -/
+def nvCfg : Config HostImpl.World := { host := HostImpl.host, funs := fun _ => none, maxStatements := 1000 }
+
+/-- the hypotheses of `lower_exact` / `run_lowered_eq_runT` / `lower_exact_body` are inhabited by a non-trivial instance -/
+example (f : Nat) := lower_exact nvCfg none nvProg nvProg_noRaw f none nvSt
+example (f : Nat) := run_lowered_eq_runT nvCfg none nvProg nvProg_noRaw f none nvSt
+example (f : Nat) := lower_exact_body nvCfg none nvProg 7 nvProg_noRaw f (some []) nvSt
+
+/-- `HostImpl.host` with the two comparisons the example uses computed directly on numbers (`HostImpl.compare` is
+defined by well-founded recursion, which the kernel cannot evaluate) -/
+def nvHost : Host HostImpl.World :=
+  { HostImpl.host with
+    binop := fun op a b w =>
+      match op, a, b with
+      | .lt, .num x, .num y => .bool (x < y)
+      | .eq, .num x, .num y => .bool (x == y)
+      | op, a, b => HostImpl.binop op a b w }
+
+def nvCfg' : Config HostImpl.World := { host := nvHost, funs := fun _ => none, maxStatements := 1000 }
+
+private def resSummary {W : Type} : Res W → Option (Value × Nat)
+  | .ret v st => some (v, st.count)
+  | _ => none
+
+/-- the lowered program has 28 statements and 4 generated label indices -/
+example : (lowerProgram nvProg).length = 28 ∧ cntB nvProg 0 = 4 := by decide
+
+/-- the structured run returns 2+3 twice = 10 after exactly 70 (lowered) statements … -/
+example : resSummary (toRes (execTB nvCfg' (callValue₀ nvCfg') (execIncludes₀ nvCfg') false nvProg 0 1000 none none nvSt))
+    = some (.num 10, 70) := by decide +kernel
+
+/-- … hence (by the theorem, not by running it) so does the jump machine on the lowered program … -/
+example : resSummary (execute₀ nvCfg' 1000 (lowerProgram nvProg) none nvSt) = some (.num 10, 70) := by
+  rw [execute₀_lowered nvCfg' none nvProg nvProg_noRaw]; decide +kernel
+
+/-- … and with 69 units of fuel both run out of fuel -/
+example : execute₀ nvCfg' 69 (lowerProgram nvProg) none nvSt = .oof := by
+  rw [execute₀_lowered nvCfg' none nvProg nvProg_noRaw]
+  have : (match toRes (execTB nvCfg' (callValue₀ nvCfg') (execIncludes₀ nvCfg') false nvProg 0 69 none none
+      { nvSt with count := 0 }) with | .oof => true | _ => false) = true := by decide +kernel
+  revert this
+  cases toRes (execTB nvCfg' (callValue₀ nvCfg') (execIncludes₀ nvCfg') false nvProg 0 69 none none
+      { nvSt with count := 0 }) <;> simp
+
+end NonVacuity
+
 end C01
+
+/-
+#print axioms C01.lower_exact
+#print axioms C01.lower_exact_body
+#print axioms C01.run_lowered_eq_runT
+-/
+#print axioms C01.lower_exact
+#print axioms C01.lower_exact_body
+#print axioms C01.run_lowered_eq_runT
+#print axioms C01.run_body_eq
+#print axioms C01.execute₀_lowered
+#print axioms C01.simB
